@@ -32,3 +32,19 @@ def _(self, pos, op):
                     and result[1] == opaque("rev_comp", "str", op[:op.index(">")]) + ">" + opaque("rev_comp", "str", op[op.index(">") + 1:])),
             label="reverse/substitution")
     modifies()
+
+
+# C09 / C03: the statement of the loader that zeroes the copy number of empty regions in every configuration (slice).
+
+@contract("aldy.gene.Gene._init_alleles@empty-regions", native=False)
+def _(self):
+    types(self="Gene")
+    requires(forall(lambda c=str, g=int, r=str: implies(c in self.cn_configs and 0 <= g and g < len(self.cn_configs[c].cn) and r in self.cn_configs[c].cn[g],
+                                                        g < len(self.regions) and r in self.regions[g])))
+    # a region of zero length (e.g. CYP2D6 pce) can never be covered: its copy number is 0 in every configuration;
+    # every other entry of every configuration keeps its value
+    ensures(forall(lambda c=str, g=int, r=str: implies(
+        c in self.cn_configs and 0 <= g and g < len(self.cn_configs[c].cn) and r in self.cn_configs[c].cn[g],
+        self.cn_configs[c].cn[g][r] == (0 if self.regions[g][r].end - self.regions[g][r].start <= 0 else old(self.cn_configs[c].cn[g][r])))),
+        label="empty-regions-have-no-copies")
+    modifies(self.cn_configs)
